@@ -800,3 +800,72 @@ Proof.
   - replace (6 * r + 20) with (2 + (r + 3) * 6) by ring. now rewrite Z_mod_plus_full.
   - f_equal. f_equal; [f_equal|]; ring.
 Qed.
+
+(* ================================================================== *)
+(* round 9: packing the sort key into one integer                      *)
+(* ================================================================== *)
+(* rank = (shank * stride + row) * w - col, written on the key (shank, row, -col) *)
+Definition packed (stride w : Z) (k : key3) : Z := let '(s, r, nc) := k in (s * stride + r) * w + nc.
+Definition key_in_range (stride w : Z) (k : key3) : Prop :=
+  let '(s, r, nc) := k in 0 <= r < stride /\ - w < nc <= 0.
+
+Lemma pack2 m x y x' y' : 0 <= y < m -> 0 <= y' < m ->
+  (x * m + y < x' * m + y' <-> x < x' \/ (x = x' /\ y < y')).
+Proof.
+  intros H H'. split.
+  - intros L. destruct (Z.lt_trichotomy x x') as [A|[A|A]]; [now left|right; subst; lia|exfalso].
+    assert ((x' + 1) * m <= x * m) by (apply Z.mul_le_mono_nonneg_r; lia). lia.
+  - intros [A|[A L]]; [|subst; lia].
+    assert ((x + 1) * m <= x' * m) by (apply Z.mul_le_mono_nonneg_r; lia). lia.
+Qed.
+
+Lemma pack2_eq m x y x' y' : 0 <= y < m -> 0 <= y' < m ->
+  (x * m + y = x' * m + y' <-> x = x' /\ y = y').
+Proof.
+  intros H H'. split; [|intros [-> ->]; reflexivity]. intros E.
+  destruct (Z.lt_trichotomy x x') as [A|[A|A]].
+  - assert ((x + 1) * m <= x' * m) by (apply Z.mul_le_mono_nonneg_r; lia). lia.
+  - subst. lia.
+  - assert ((x' + 1) * m <= x * m) by (apply Z.mul_le_mono_nonneg_r; lia). lia.
+Qed.
+
+(* the packed rank orders exactly like the lexicographic key when the stride exceeds every row and the
+   width exceeds every column *)
+Lemma packed_order stride w a b : key_in_range stride w a -> key_in_range stride w b ->
+  (packed stride w a < packed stride w b <-> lt3P a b) /\
+  (packed stride w a = packed stride w b <-> a = b).
+Proof.
+  destruct a as [[s r] c], b as [[s' r'] c']. unfold key_in_range, packed, lt3P.
+  intros [Hr Hc] [Hr' Hc'].
+  replace ((s * stride + r) * w + c) with ((s * stride + r) * w + (c + w - 1) - (w - 1)) by ring.
+  replace ((s' * stride + r') * w + c') with ((s' * stride + r') * w + (c' + w - 1) - (w - 1)) by ring.
+  pose proof (pack2 w (s * stride + r) (c + w - 1) (s' * stride + r') (c' + w - 1) ltac:(lia) ltac:(lia)) as P1.
+  pose proof (pack2_eq w (s * stride + r) (c + w - 1) (s' * stride + r') (c' + w - 1) ltac:(lia) ltac:(lia)) as E1.
+  pose proof (pack2 stride s r s' r' Hr Hr') as P2.
+  pose proof (pack2_eq stride s r s' r' Hr Hr') as E2.
+  split.
+  - split; intros H.
+    + assert (H' : (s * stride + r) * w + (c + w - 1) < (s' * stride + r') * w + (c' + w - 1)) by lia.
+      apply P1 in H'. destruct H' as [H'|[H1 H2]].
+      * apply P2 in H'. lia.
+      * apply E2 in H1. lia.
+    + assert (G : (s * stride + r) * w + (c + w - 1) < (s' * stride + r') * w + (c' + w - 1)); [|lia].
+      apply P1. destruct H as [H|[H1 [H|[H2 H3]]]].
+      * left. apply P2. now left.
+      * left. apply P2. right. now split.
+      * right. split; [apply E2; now split|lia].
+  - split; intros H.
+    + assert (H' : (s * stride + r) * w + (c + w - 1) = (s' * stride + r') * w + (c' + w - 1)) by lia.
+      apply E1 in H' as [H1 H2]. apply E2 in H1 as [-> ->]. f_equal. lia.
+    + inversion H; subst. reflexivity.
+Qed.
+
+(* a stable sort by the packed rank therefore yields the same index as lexsort *)
+Lemma packed_before stride w key i j :
+  key_in_range stride w (key i) -> key_in_range stride w (key j) ->
+  (before key i j <-> packed stride w (key i) < packed stride w (key j) \/
+                      (packed stride w (key i) = packed stride w (key j) /\ i < j)).
+Proof.
+  intros Hi Hj. destruct (packed_order stride w (key i) (key j) Hi Hj) as [P E]. unfold before.
+  rewrite P, E. tauto.
+Qed.
